@@ -56,7 +56,7 @@ func runChain(o *vh.Opts, res *vh.Result, cases *vh.Cases, cr *vh.Rand, p chain.
 	w := chain.NewWorld(cr, p.NKeys, p.NIn, p.NKn)
 	ops, cfg := chain.Generate(cr, w, p)
 	cache := []int{0, 1, 3, 100}[cr.Intn(4)]
-	steps, mism, err := chain.Run(w, ops, cfg, cache, nil)
+	init, steps, mism, err := chain.Run(w, ops, cfg, cache, nil)
 	rp := replay{Seed: o.Seed, Chain: ci, Cache: cache, Cfg: cfg, Ops: ops}
 	if err != nil {
 		res.Fail("harness-error", err.Error(), rp)
@@ -102,16 +102,12 @@ func runChain(o *vh.Opts, res *vh.Result, cases *vh.Cases, cr *vh.Rand, p chain.
 		}
 		seen[cl] = true
 		rp2 := rp
-		rp2.Ops = ops[:m.Step+1]
+		rp2.Ops = ops[:max(m.Step, 0)+1]
 		rp2.Detail = m
 		res.Fail(cl, fmt.Sprintf("chain %d step %d: %s = %d, committed chain says %d", ci, m.Step, m.Read, m.Impl, m.Want), rp2)
 	}
 	// model case
-	ss := make([]string, len(steps))
-	for i := range steps {
-		ss[i] = steps[i].Coq(ops[i])
-	}
-	cases.Add("(mkCase "+cfg.Coq()+" "+vh.List(ss)+")", map[string]any{"chain": ci, "cfg": cfg, "ops": ops})
+	cases.Add(chain.CoqCase(cfg, init, ops, steps), map[string]any{"chain": ci, "cfg": cfg, "ops": ops})
 }
 
 func concurrent(o *vh.Opts, res *vh.Result, r *vh.Rand) {
